@@ -249,6 +249,14 @@ def datetime_to_time(date, time):
             else:
                 after = middle
         when = float(after)
+    elif time[3]:
+        # hundredths of a second; the clock is read back in whole hundredths
+        # (Time.now() truncates), binary rounding must not leave the instant
+        # a hair before the requested one or the task would find nothing to
+        # do yet and ask for the same instant again
+        when += time[3] / 100.0
+        if int((when - int(when)) * 100) < time[3]:
+            when += 0.00001
 
     return when
 
